@@ -702,8 +702,12 @@ class Inst:
                 num = lambda v: C.int_val(v) if v["k"] == "int" else C.float_val(v)
                 x, y = num(t["t"]["v"]), num(t["arg"]["v"])
                 c = [x + y, x, y, int(x) + int(y), int(x + y), x + int(y)]
-                z = r.choice(c)
-                return C.mk_float(float(z)) if r.random() < 0.5 or z != int(z) else C.mk_int(int(z))
+                # only non-integral documents: JSON cannot tell 2 from 2.0, so an integral sum is accepted as JSON "2" and (rightly)
+                # rejected as CBOR integer 2 - not a disagreement the property speaks about (false alarm met with VERIF_SEED=2)
+                c = [z for z in c if z != int(z)]
+                if not c:
+                    return C.mk_text("a")
+                return C.mk_float(float(r.choice(c)))
             if op == "cat" and t["arg"]["k"] == "paren":
                 return C.mk_text(r.choice(["abc", "ac", "bc", "ad d", "\u00e9bc", "\u00e9c", "bd d", "a", "c"]))
             if op in ("cat", "plus"):
